@@ -244,6 +244,7 @@ HEAP_SORTS: Dict[str, Any] = {
     "ghost.alloc": Int,
     "ghost.ylog": A_II,  # values yielded by the generator under check, in order
     "ghost.ny": Int,
+    "ghost.ylog2": A_II,  # second component when the generator yields pairs
     "ghost.nwarn": Int,  # warnings.warn calls
 }
 
